@@ -1,6 +1,7 @@
 import PngVerif.Driver.C14
 import PngVerif.Driver.C01
 import PngVerif.Driver.C15
+import PngVerif.Driver.C20
 import PngVerif.Driver.Framing
 /-!
 `pngmodel`: line-protocol driver.  One case per input line, one canonical answer per output line,
@@ -14,6 +15,7 @@ def answer (line : String) : String :=
   | "c14" :: args => c14 args
   | "c01" :: args => c01 args
   | "c15" :: args => c15 args
+  | "c20" :: args => c20 args
   | "frm" :: args => frm args
   | _ => "bad-op"
 
